@@ -29,6 +29,7 @@ RULE = ('exhaustive: every string up to length 4 (quick) / 5 (thorough) over the
 TRUSTED = ['extraction of the parser model to OCaml (ExtrOcamlBasic + ExtrOcamlString only) and coq/Extract/Parser/driver.ml',
            'harness/parser_common.py (encoders, driver runner)', "CPython's compile() as the syntax-check oracle (tabulated per generated statement)"]
 ASSUMPTIONS = ['input strings are Latin-1 (code points 0..255)',
+               "CPython's int() digit limit is the default sys.get_int_max_str_digits() = 4300 (ParseEq.int_max_str_digits; boundary cases 4300/4301 in the corpus)",
                'str.format fields with attribute / index / format-spec / conversion parts are outside the model (PUnmodelled; K skips them, 69 of the 837 930 strings up to length 4)',
                'the oracle chk stands for compile(): theorems hold for every chk; "never executes model code" is observed on the real code by canary builtins and environment snapshots',
                'build_model / instantiation are observed on the real code only (not modelled here)']
@@ -143,7 +144,8 @@ def _install():
     import tempfile
     import fsic
     os.chdir(tempfile.mkdtemp(prefix='c13_worker_'))
-    for txt in ('Y = C + exp(X[-1]) + {a} + <e>', '```\nx = 1\n```', 'Y = ('):
+    import unicodedata      # noqa: F401 - CPython imports it lazily the first time compile() meets a non-ASCII identifier
+    for txt in ('Y = C + exp(X[-1]) + {a} + <e>', '```\nx = 1\n```', 'Y = (', 'Y = \xe9', '\xe9 = 1', 'Y = X[\xe9]', '`\xe9 = 1`'):
         try:
             fsic.build_model(fsic.parse_model(txt))(range(3))
         except Exception:       # noqa: BLE001
@@ -350,6 +352,7 @@ CORPUS = [
     'status = 1', 'Y = lags', 'Y = {check}', '`x = 1; from os import *`',                          # NEW: accepted but cannot be built / instantiated
     'Y = ' + '+'.join(['X'] * 3000), 'Y = ' + '-' * 6000 + 'X',                                   # NEW: RecursionError / MemoryError from compile()
     'Y = ' + '(' * 250 + 'X' + ')' * 250, 'Y = X[' + '1' * 5000 + ']',
+    'Y = X[' + '1' * 4300 + ']', 'Y = X[' + '1' * 4301 + ']', 'Y = X[ -' + '0' * 4299 + '_1 ]', 'Y = X[+' + '0' * 4300 + '_1]',   # int() digit limit
 ]
 
 
